@@ -265,6 +265,9 @@ static void op_af(int argc, char **argv) {
 	if (!strncmp(fn + strlen(fn) - 4, "_big", 4)) {
 		bn_lsh(BB[0], B[0], 1500); bn_add(BB[0], BB[0], B[1]); bn_lsh(BB[1], B[1], 1400); bn_add(BB[1], BB[1], B[0]);
 	}
+	/* the tau-adic recodings are specified for scalars below 2^m (the curve code reduces first); longer direct inputs are outside this
+	 * enumeration (valgrind shows uninitialised reads there in every build: noted as a candidate in DESIGN.md) */
+	if (!strcmp(fn, "bn_rec_tnaf") || !strcmp(fn, "bn_rec_rtnaf")) bn_mod_2b(B[0], B[0], 160);
 	if (bn_is_zero(B[2])) bn_set_dig(B[2], 3);
 	bn_abs(B[2], B[2]);
 	{
